@@ -5,19 +5,19 @@ from harness import rfworld as W
 from harness.rfworld import RFWorld
 
 
-def run_history(V, prop, steps=5, nreq=3, pool_kind='v3', factory_preempt=False):
+def run_history(V, prop, steps=5, nreq=3, pool_kind='v3', factory_preempt=False, race=None):
     cap = V.pick('max_in_flight', [2, 3])
     thr = V.pick('orphan_threshold', [1, 2])
     kit.FakeConnection.max_in_flight = cap
     kit.FakeConnection.orphaned_threshold = thr
     try:
-        return _run(V, prop, steps, nreq, factory_preempt)
+        return _run(V, prop, steps, nreq, factory_preempt, race)
     finally:
         kit.FakeConnection.max_in_flight = 2 ** 15
         kit.FakeConnection.orphaned_threshold = 3 * (2 ** 15) // 4
 
 
-def _run(V, prop, steps, nreq, factory_preempt):
+def _run(V, prop, steps, nreq, factory_preempt, race=None):
     world = RFWorld(V, n_hosts=1, protocol_version=4)
     host = world.hosts[0]
     pool = world.pools[host]
@@ -44,6 +44,37 @@ def _run(V, prop, steps, nreq, factory_preempt):
         c.close = close.__get__(c)
         return c
     world.cluster.connection_factory = factory
+    # ---- sync-point pre-emption (one per history): another thread runs at a lock acquire/release of the named function
+    if race == 'timeout-response':
+        # the event loop delivers the late response while ResponseFuture._on_timeout is between popping the request
+        # and taking the connection lock to record the stream as orphaned
+        def deliver_late(function, name, phase):
+            for c in world.w.conns:
+                for stream, (tag, msg) in list(world.server.outstanding.get(c, {}).items()):
+                    if stream not in c._requests and stream not in c.orphaned_request_ids and not c.is_closed:
+                        world.respond(c, stream, world.rows(tag))
+                        return
+        pre = kit.Preempter(V, ('_on_timeout',), deliver_late, phases=('acquire',))
+        def arm(c):
+            c.lock = kit.SchedLock('connection.lock', pre)
+    elif race == 'replace-shutdown':
+        # another thread shuts the pool down at a lock acquire/release inside HostConnection._replace
+        pre = kit.Preempter(V, ('_replace',), lambda *a: pool.shutdown())
+        pool._lock = kit.SchedLock('pool._lock', pre)
+        pool._stream_available_condition = kit.VirtualCondition(pool._lock)
+        def arm(c):
+            c.lock = kit.SchedLock('connection.lock', pre)
+    else:
+        arm = None
+    if arm:
+        for c in world.w.conns:
+            arm(c)
+        _f2 = world.cluster.connection_factory
+        def factory2(endpoint, *a, **k):
+            c = _f2(endpoint, *a, **k)
+            arm(c)
+            return c
+        world.cluster.connection_factory = factory2
     ntag = [0]
     defuncted = set()
     borrowed_after_shutdown = []
